@@ -15,6 +15,8 @@ class Table:
         self.pk: List[str] = []
         self.fks: List[Tuple[Tuple[str, ...], str, Tuple[str, ...]]] = []   # (cols, ref table, ref cols)
         self.uniques: List[List[str]] = []
+        self.without_rowid = False      # rows are then stored (and scanned) in primary-key order, not in insertion order
+        self.options: List[str] = []    # tokens after the closing parenthesis of the column list
         self.line = 0
 
 
@@ -144,6 +146,8 @@ class Schema:
                     r = pl.index("references")
                     rcols = tuple(x for x in part[r + 2:] if x not in "(),")
                     t.fks.append(((col,), part[r + 1], rcols))
+        t.options = [x.lower() for x in toks[end + 1:]]
+        t.without_rowid = "without" in t.options and "rowid" in t.options
         self.tables[t.name] = t
 
     def _insert(self, toks: List[str], low: List[str], node: ast.Call) -> None:
